@@ -184,6 +184,7 @@ func (ex *Exec) runBody(fr *Frame, st *State) {
 			if len(ins) == 0 {
 				continue // unreachable
 			}
+			ex.atLoopJoin(fr, b, ins)
 			cur = ex.merge(fr, b, ins, preds)
 		}
 		if li := headOf[b]; li != nil {
@@ -209,6 +210,54 @@ func (ex *Exec) runBody(fr *Frame, st *State) {
 			}
 		case *ssa.Jump:
 			ex.flow(fr, b, b.Succs[0], cur, headOf, edgeSt)
+		}
+	}
+}
+
+// atLoopJoin: "atexit <loop> label: expr" clauses are proved on every path that leaves the loop, in that path's own
+// state, where the paths join behind the loop (before they are merged), and are known afterwards.
+func (ex *Exec) atLoopJoin(fr *Frame, b *ssa.BasicBlock, ins []*State) {
+	if fr != ex.rootFrame || fr.ct == nil || len(fr.ct.AtExit) == 0 {
+		return
+	}
+	for _, li := range fr.loops {
+		if li.blocks[b] {
+			continue
+		}
+		// the join behind a Go for/range loop is the block the loop head leaves to; break statements jump there too
+		join := false
+		for _, sc := range li.head.Succs {
+			if sc == b && !li.blocks[sc] {
+				join = true
+			}
+		}
+		if !join {
+			continue
+		}
+		for _, c := range fr.ct.AtExit {
+			if c.Loop != li.ord {
+				continue
+			}
+			for _, st := range ins {
+				en := ex.loopEnv(fr, st, li)
+				t, err := en.evalBool(c.E)
+				if err != nil {
+					ex.errors = append(ex.errors, fmt.Sprintf("%s: atexit %s: %v", c.Line, c.Label, err))
+					continue
+				}
+				pos := token.NoPos
+				for _, in := range li.head.Instrs {
+					if in.Pos().IsValid() {
+						pos = in.Pos()
+						break
+					}
+				}
+				o := ex.oblige(fr, st, "exit", fmt.Sprintf("loop%d.%s", li.ord, c.Label), t, pos, "holds on every path that leaves the loop: "+c.Src)
+				if o != nil {
+					o.Props = c.Props
+					o.HasQuant = en.quant
+				}
+			}
 		}
 	}
 }
@@ -818,7 +867,7 @@ func (ex *Exec) oblige(fr *Frame, st *State, kind, label, cond string, pos token
 		return nil
 	}
 	if kind != "post" && kind != "pre" && kind != "inv-entry" && kind != "inv-pres" && kind != "lemma" &&
-		kind != "assigns" && kind != "typeinv" && kind != "dec" && kind != "own" && kind != "guarded" && kind != "crash" && !ex.opts.Safety {
+		kind != "exit" && kind != "assigns" && kind != "typeinv" && kind != "dec" && kind != "own" && kind != "guarded" && kind != "crash" && !ex.opts.Safety {
 		ex.assume(st.pc, cond)
 		return nil
 	}
